@@ -62,15 +62,15 @@ def leaves(nd):
     return leaves(nd['rightChild']) + leaves(nd['leftChild'])
 
 
-def job_tree(nev, seed):
+def job_tree(nev, seed, sorted_rates=False):
     """the real makeTree + findHoppingDestination for nev events with symbolic positive rates, every ordering the comparators can observe"""
     rvc.reset()
     fns = tree_fns()
     F = 'huffmanTree<GLink>::makeTree / findHoppingDestination'
-    bound = '%d events (rates symbolic, every comparator outcome explored)' % nev
+    bound = '%d events (rates symbolic, every comparator outcome explored%s)' % (nev, '; restricted to rates in increasing order k0 < k1 < ...' if sorted_rates else '')
     obs = []
     rates = [sp.Symbol('k%d' % i, positive=True) for i in range(nev)]
-    base0 = [z3.Real(r.name) > 0 for r in rates]
+    base0 = [z3.Real(r.name) > 0 for r in rates] + ([z3.Real(rates[i].name) < z3.Real(rates[i + 1].name) for i in range(nev - 1)] if sorted_rates else [])
     S = sum(rates)
     P = rvc.Paths(budget=20000)
     npaths = 0
@@ -98,7 +98,7 @@ def job_tree(nev, seed):
         except Ret:
             pass
         npaths += 1
-        tag = 'n%d.p%d' % (nev, npaths)
+        tag = 'n%d%s.p%d' % (nev, '.sorted' if sorted_rates else '', npaths)
         ht = this['htree']
         root = ht[-1]
         okstruct = (len(ht) == (nev if nev % 2 else nev - 1)) and this['treeIsMade'] is True and rvc.nf_zero(this['sum_of_values'].v - S) and sorted(e['name'] for e in leaves(root)) == list(range(nev))
@@ -150,7 +150,7 @@ def job_tree(nev, seed):
         if not P.next():
             break
     # vacuity: at least one path and a canary
-    obs.append(rvc.canary('C14.tree.n%d' % nev, F, rates[0] / S, rates[0] / S, seed))
+    obs.append(rvc.canary('C14.tree.n%d%s' % (nev, '.sorted' if sorted_rates else ''), F, rates[0] / S, rates[0] / S, seed))
     mf = [{'name': 'huffmanTree<GLink>::' + k, 'file': 'xtp/include/votca/xtp/huffmantree.h', 'ast_nodes': rvc.node_count(fns[k][0])} for k in
           ('makeTree', 'findHoppingDestination', 'addProbabilityFromRightSubtreeToLeftSubtree', 'moveProbabilitiesFromRightSubtreesOneLevelUp')]
     for o in obs:
@@ -302,7 +302,7 @@ def collect(obs):
 
 def run(tier, seed, only=None):
     ns = (1, 2, 3, 4) if tier == 'quick' else (1, 2, 3, 4, 5)
-    jobs = [(job_tree, (n, seed)) for n in ns] + [(job_escape, (seed,)), (job_marcus, (seed,)), (job_promote, (seed,))]
+    jobs = [(job_tree, (n, seed)) for n in ns] + ([(job_tree, (n, seed, True)) for n in ((5, 6, 7, 8) if tier == 'quick' else (6, 7, 8, 9, 10))]) + [(job_escape, (seed,)), (job_marcus, (seed,)), (job_promote, (seed,))]
     if only:
         jobs = [j for j in jobs if re.search(only, j[0].__name__ + str(j[1]))]
     obs = core.pmap(jobs)
